@@ -294,7 +294,12 @@ fn run_one(w: &mut Option<Worker>, job: &Job, timeout: Duration, recycle_every: 
     match wk.rx.recv_timeout(timeout) {
         Ok(l) => {
             wk.jobs_done += 1;
-            serde_json::from_str(&l).unwrap_or_else(|e| Outcome::Crash(format!("bad outcome line: {}", e)))
+            let out: Outcome = serde_json::from_str(&l).unwrap_or_else(|e| Outcome::Crash(format!("bad outcome line: {}", e)));
+            if matches!(out, Outcome::Panic(_)) {
+                // a panic may have poisoned the process-wide cache locks: never reuse this process
+                wk.jobs_done = usize::MAX / 2;
+            }
+            out
         }
         Err(RecvTimeoutError::Timeout) => {
             wk.kill();
